@@ -4,10 +4,13 @@ package harness
 
 import (
 	"bytes"
+	"encoding/hex"
 	"encoding/json"
 	"fmt"
 	"os"
+	"os/exec"
 	"path/filepath"
+	"strings"
 	"testing"
 	"time"
 
@@ -92,6 +95,45 @@ func cmpHRS(h1 int64, r1 int32, s1 int8, h2 int64, r2 int32, s2 int8) int {
 	return 0
 }
 
+// TestC20SecondLife is the second OS process of a C20 sequence: it starts the signer the way the node does and
+// asks it for one signature.
+func TestC20SecondLife(t *testing.T) {
+	arg := os.Getenv("VERIF_C20_SECOND_LIFE")
+	if arg == "" {
+		t.Skip("driver-only")
+	}
+	var a struct {
+		Key, State, Pass string
+		Op               SOp
+	}
+	if err := json.Unmarshal([]byte(arg), &a); err != nil {
+		t.Fatal(err)
+	}
+	var pass []byte
+	if a.Pass != "" {
+		pass, _ = hex.DecodeString(a.Pass)
+	}
+	pv := rcrypto.LoadOrGenSFilePV(a.Key, a.State, pass) // ends the process when it refuses to start
+	pub, _ := pv.GetPubKey()
+	ts := time.Unix(1_700_000_000, 0).UTC().Add(time.Duration(a.Op.TS) * time.Second)
+	var sig []byte
+	var serr error
+	if a.Op.Op == "vote" {
+		v := &tmproto.Vote{Type: tmproto.SignedMsgType(a.Op.Type), Height: a.Op.H, Round: a.Op.R, BlockID: blockIDOf(a.Op.Block), Timestamp: ts, ValidatorAddress: pub.Address()}
+		serr = pv.SignVote(a.Op.Chain, v)
+		sig = v.Signature
+	} else {
+		p := &tmproto.Proposal{Type: tmproto.ProposalType, Height: a.Op.H, Round: a.Op.R, PolRound: a.Op.POL, BlockID: blockIDOf(a.Op.Block), Timestamp: ts}
+		serr = pv.SignProposal(a.Op.Chain, p)
+		sig = p.Signature
+	}
+	if serr != nil || len(sig) == 0 {
+		fmt.Printf("SECOND-LIFE: REFUSED %v\n", serr)
+		return
+	}
+	fmt.Printf("SECOND-LIFE: SIGNED %x\n", sig)
+}
+
 // C20: the file-backed signer never double-signs, across reloads.
 func TestC20(t *testing.T) {
 	st := newStats("C20")
@@ -113,10 +155,38 @@ func TestC20(t *testing.T) {
 		m := &signerModel{}
 		feats = map[string]bool{}
 		var hist []released
+		var lastSigned *SOp
 		justReloaded := false
 		for {
 			op := next(m, len(ops))
 			if op == nil {
+				// now and then the sequence ends with a second life of the signer whose state file was lost or emptied
+				// (another OS process, because a signer that refuses to start ends its process): it must not sign a
+				// message that conflicts with the last one this life released
+				if m.has && lastSigned != nil && sha([]byte(fmt.Sprintf("%d/%d/%d", len(ops), m.h, m.r)))[0]%48 == 0 {
+					how := "removed"
+					if len(ops)%2 == 0 {
+						how = "emptied"
+						_ = os.WriteFile(statePath, nil, 0o600)
+					} else {
+						_ = os.Remove(statePath)
+					}
+					conflict := *lastSigned
+					conflict.Block = lastSigned.Block%2 + 1
+					arg, _ := json.Marshal(map[string]interface{}{"key": keyPath, "state": statePath, "pass": hex.EncodeToString(pass), "op": conflict})
+					cmd := exec.Command(os.Args[0], "-test.run", "^TestC20SecondLife$")
+					cmd.Env = append(os.Environ(), "VERIF_C20_SECOND_LIFE="+string(arg))
+					outb, _ := cmd.CombinedOutput()
+					feats["second_life_without_state_file"] = true
+					if i := strings.Index(string(outb), "SECOND-LIFE: SIGNED "); i >= 0 {
+						sig := strings.Fields(string(outb)[i+len("SECOND-LIFE: SIGNED "):])[0]
+						if sig != hex.EncodeToString(m.sig) {
+							return ops, feats, fmt.Errorf("after the state file was %s the signer started again and signed %s at (%d,%d,%d), where it had released a signature for %s before", how, identOf(conflict), conflict.H, conflict.R, stepOf(conflict), m.ident)
+						}
+					} else {
+						feats["second_life_refused"] = true
+					}
+				}
 				return ops, feats, nil
 			}
 			ops = append(ops, *op)
@@ -125,7 +195,13 @@ func TestC20(t *testing.T) {
 			}
 			if op.Op == "reload" {
 				var perr *PanicError
-				perr = guard("LoadSFilePV", func() { pv = rcrypto.LoadSFilePV(keyPath, statePath, pass) })
+				if len(ops)%2 == 0 {
+					// the way the node itself starts its signer (loads, then writes key and state files again)
+					perr = guard("LoadOrGenSFilePV", func() { pv = rcrypto.LoadOrGenSFilePV(keyPath, statePath, pass) })
+					feats["reload_through_the_node_start_path"] = true
+				} else {
+					perr = guard("LoadSFilePV", func() { pv = rcrypto.LoadSFilePV(keyPath, statePath, pass) })
+				}
 				if perr != nil {
 					return fail("reload panicked: %v", perr)
 				}
@@ -241,6 +317,9 @@ func TestC20(t *testing.T) {
 				}
 				m.h, m.r, m.step, m.ident, m.ts, m.sig, m.has = op.H, op.R, step, ident, op.TS, append([]byte(nil), sig...), true
 				feats["fresh_signature"] = true
+				cp := *op
+				cp.Fault = false
+				lastSigned = &cp
 			}
 			// history invariant over everything released
 			if serr == nil {
